@@ -562,6 +562,14 @@ Section Oracles.
       else Ok b
     end.
 
+  (* bytes ReadStoredObject pulls from the object's reader: nothing when the reported size is
+     refused, otherwise at most maxBytes+1 (io.LimitReader) *)
+  Definition read_pulled (st : store) (key : bytes) (maxb : N) : N :=
+    match get st key with
+    | None => 0
+    | Some (b, sz) => if (sz =? 0) || (maxb <? sz) then 0 else N.min (blen b) (maxb + 1)
+    end.
+
   (* DecodeChunk(io.Discard, reader, descriptor) *)
   Definition decode_chunk (b : body) (d : chunk_desc) : res unit :=
     if negb (validate_chunk_descriptor d) then Err EObject
@@ -807,12 +815,13 @@ Section Oracles.
     | None => None
     end.
 
-  (* a chunk object matches its descriptor: reported and real stored size, stored digest,
-     decodes, logical size and digest *)
+  (* a chunk object matches its (well-formed) descriptor: reported and real stored size,
+     stored digest, decodes, logical size and digest *)
   Definition chunk_consistentb (st : store) (root : bytes) (c : chunk_ref) : bool :=
     match get st (root ++ cr_key c) with
     | Some (b, sz) =>
-      (sz =? cd_stored_bytes (cr_desc c)) && (blen b =? cd_stored_bytes (cr_desc c))
+      validate_chunk_descriptor (cr_desc c)
+      && (sz =? cd_stored_bytes (cr_desc c)) && (blen b =? cd_stored_bytes (cr_desc c))
       && bytes_eqb (H b) (cd_stored_sha (cr_desc c))
       && match unz b with
          | Some (ll, lh) => (ll =? cd_logical_bytes (cr_desc c)) && bytes_eqb lh (cd_logical_sha (cr_desc c))
